@@ -246,8 +246,8 @@ func poolTypestate(c *core.Ctx, rule string) {
 				okPut = true // the owner's Release method
 			case isGetResult(arg):
 				okPut = true // Get and Put in one function
-			case len(fn.Params) > 0 && arg == ssa.Value(fn.Params[0]) && strings.HasPrefix(fn.Name(), "restore"):
-				okPut = true // the pool's own restore helper
+			case len(fn.Params) == 1 && arg == ssa.Value(fn.Params[0]) && fn.Object() != nil && !fn.Object().Exported() && calledOnlyFromRelease(c, fn):
+				okPut = true // the pool's own helper: takes the object, puts it back, and is called by the owner's Release only
 			default:
 				why = "a pool Put outside the owner's Release method / the pool helper / next to its own Get: the same object can be returned to the pool twice"
 			}
@@ -407,4 +407,20 @@ func usedOutsideInit(c *core.Ctx, g *ssa.Global) bool {
 		}
 	}
 	return false
+}
+
+// calledOnlyFromRelease: every call of the unexported helper fn comes from a method named Release (the owner giving its
+// pooled object back); at least one such call exists.
+func calledOnlyFromRelease(c *core.Ctx, fn *ssa.Function) bool {
+	node := c.Prog.CallGraph().Nodes[fn]
+	if node == nil || len(node.In) == 0 {
+		return false
+	}
+	for _, e := range node.In {
+		cf := e.Caller.Func
+		if cf == nil || cf.Name() != "Release" || cf.Signature.Recv() == nil {
+			return false
+		}
+	}
+	return true
 }
